@@ -274,7 +274,7 @@ def check(prog, rep, tier):
     uf = prog.func('yabgp.api.utils.update_send_version')
     body = [b for b in uf.node.body if not (isinstance(b, ast.Expr) and isinstance(b.value, ast.Constant))]
     okf = len(body) == 1 and isinstance(body[0], ast.Expr) and isinstance(body[0].value, ast.Call) and \
-        src_of(body[0].value.func).endswith('.fsm.protocol.update_send_version') and \
+        common.expand_helpers(uf.module, src_of(body[0].value.func)).endswith('.fsm.protocol.update_send_version') and \
         [src_of(a) for a in body[0].value.args] == uf.params
     if okf:
         rep.ok('R19.c', 'rest-forwards-version-update', file=uf.file, line=uf.node.lineno)
